@@ -235,8 +235,8 @@ class YncaCommandHandler(socketserver.StreamRequestHandler):
             sys_values = self.store._store.get("SYS", {})
             for key in sys_values.keys():
                 if key.startswith("INPNAME") and key != "INPNAME":
-                    self._send_stored_value_no_error(subunit, key)
-                    response_sent = True
+                    if self._send_stored_value_no_error(subunit, key) is not None:
+                        response_sent = True
             if not response_sent:
                 self._send_ynca_error(UNDEFINED)
             return
@@ -250,8 +250,8 @@ class YncaCommandHandler(socketserver.StreamRequestHandler):
                     and key.endswith("NAME")
                     and key != "SCENENAME"
                 ):
-                    self._send_stored_value_no_error(subunit, key)
-                    response_sent = True
+                    if self._send_stored_value_no_error(subunit, key) is not None:
+                        response_sent = True
             if not response_sent:
                 self._send_ynca_error(UNDEFINED)
             return
